@@ -689,6 +689,16 @@ def gen_fn(repo, d, body, report):
             if toks[q].kind == "ident" and toks[q].text == "const":
                 edits.add(toks[q].start, toks[q].end, "", "R21", "const qualifier dropped")
                 stats["R21"] = stats.get("R21", 0) + 1
+    if d.get("make_async") == "1":
+        # R22: `fn f(..) -> impl Future<Output = T> { g(..) }` (manual monomorphisation: the body is one call of an async fn whose
+        # future is handed on) -> `async fn f(..) -> T { g(..).await }`; the `-> T` and `.await` parts are `subst=` entries of the
+        # directive, this inserts the qualifier.  Same observable behaviour for every caller that awaits the result at once.
+        edits.add(toks[f["fn"]].start, toks[f["fn"]].start, "async ", "R22", "fn returning impl Future => async fn")
+        last = toks[f["body_close"] - 1]
+        if last.text == ";":
+            raise LostAnchor(f"{d['file']}::{d['name']}: make_async expects a body ending in a tail expression (the future handed on)")
+        edits.add(last.end, last.end, ".await", "R22", "tail future awaited")
+        stats["R22"] = stats.get("R22", 0) + 1
     if d.get("as"):
         nt = toks[f["fn"] + 1]
         edits.add(nt.start, nt.end, d["as"], "RENAME", f"{d['name']} -> {d['as']}")
